@@ -1,6 +1,8 @@
 """Threaded part of C01: operations that call interceptions from worker threads, recorded and replayed under explored schedules."""
 from __future__ import annotations
 
+import copy
+
 from mc import progs as P, sched as S, threads as T
 from mc.core import HarnessError, viol
 
@@ -85,7 +87,7 @@ def run_case(case):
             verdict['viol'] = [viol('threads:record-failed', 'threaded recording did not complete / was not saved', 'saved', (res['deadlock'], res['horizon'], res['thread_errors']))]
             return s, verdict
         r = res['r']
-        stored = dict(res['env'].inner._recordings)
+        stored = copy.deepcopy(res['env'].inner)   # the whole in-memory cassette as it is after the recording (no private attribute assumed)
         if not P.faithful(res['env'].spy.saved_objs[r.rec_id]):
             verdict['obs'] = 'outside-faithful-domain'
             return s, verdict
